@@ -18,6 +18,11 @@ def gen_cases(seed, tier):
     cases = []
     for i in range(n):
         spec = G.gen_network(rng, kinds=("massaction", "massaction") + tuple(G.HILL) + ("general",), allow_delay=True, nrx=(1, 5), nsp=(1, 6))
+        # delayed reactants / products may be declared with NO delay distribution (delay type None): they still belong to the
+        # delayed matrix; sometimes for every delayed reaction of the model (seeded change S2_C03: matrix filled only if has_delay)
+        strip_all = rng.random() < 0.25
+        for rx in spec["reactions"]:
+            if "delay" in rx and (strip_all or rng.random() < 0.2): rx["delay"]["type"] = None; rx["delay"]["params"] = {}
         order = spec["species"]; k = rng.randint(0, len(order))
         # species referenced only by a rate law (s1, d, names in a general rate) must be declared
         needed = []
